@@ -128,6 +128,7 @@ func gen(kind string) func(t *rapid.T) Case {
 }
 
 func TestGenerated(t *testing.T) {
+	pbt.ReplayOnly(t, pbt.Target[Case]{Name: "fuzz", Check: check})
 	for _, kind := range refl.Kinds {
 		pbt.Run(t, pbt.Target[Case]{Name: kind, Checks: 2000, Gen: gen(kind), Check: check, Before: before(kind)})
 	}
@@ -145,4 +146,20 @@ func TestZZSurface(t *testing.T) {
 			pbt.AddToSet("exported iterator methods (kind|method)", kind+"|"+m)
 		}
 	}
+}
+
+// FuzzCalls lets Go's coverage-guided fuzzer drive the same interpreter: the
+// byte string is rapid's entropy (rapid.MakeFuzz), so the fuzzer mutates
+// towards new library coverage while the oracle stays the same.
+func FuzzCalls(f *testing.F) {
+	f.Add([]byte{})
+	f.Add([]byte{1, 2, 3, 4, 5, 6, 7, 8, 9, 10, 11, 12, 13, 14, 15, 16, 17, 18, 19, 20, 21, 22, 23, 24})
+	f.Fuzz(rapid.MakeFuzz(func(t *rapid.T) {
+		kind := refl.Kinds[rapid.IntRange(0, len(refl.Kinds)-1).Draw(t, "kind")]
+		c := gen(kind)(t)
+		if _, err := check(c); err != nil {
+			p := pbt.SaveFuzzFailure("C17", "fuzz", c, err)
+			t.Fatalf("violation: replay=%s %v", p, err)
+		}
+	}))
 }
